@@ -16,7 +16,13 @@ BUILD = os.environ.get('VERIF_BUILD', os.path.join(VERIF, 'build'))
 EVID = os.path.join(VERIF, 'evidence')
 REPLAY = os.path.join(VERIF, 'replay')
 ALLOWED_AXIOMS = {'propext', 'Classical.choice', 'Quot.sound'}
-FORBIDDEN = re.compile(r'\bsorry\b|\badmit\b|^\s*axiom\s|native_decide|bv_decide|implemented_by|\bunsafe\s|maxHeartbeats\s+0\b', re.M)
+FORBIDDEN = re.compile(r'\bsorry\b|\badmit\b|^\s*axiom\s|native_decide|bv_decide|implemented_by|\bunsafe\s|maxHeartbeats\s+0\b'
+                       r'|^\s*opaque\s|@\[\s*extern\b|@\[\s*csimp\b', re.M)
+# `partial def` is acceptable only for the IO read loops of the line-protocol drivers (no theorem can unfold one);
+# anywhere else it is reported like a forbidden token.  C18/Trace.lean and C18/Parse.lean are driver-side helpers
+# (trace printing / s-expression parsing of the op lines), not part of the model the theorems are about.
+PARTIAL_OK = re.compile(r'(^|/)Driver[^/]*\.lean$|(^|/)C18/(Trace|Parse)\.lean$')
+PARTIAL = re.compile(r'^\s*(?:private\s+|protected\s+)?partial\s+def\b', re.M)
 
 TRUSTED_BASE = [
     "Lean 4.33.0 kernel (axioms allowed: propext, Classical.choice, Quot.sound; audited with collectAxioms on every run)",
@@ -85,14 +91,33 @@ class Check:
         os.makedirs(BUILD, exist_ok=True)
         os.makedirs(EVID, exist_ok=True)
         os.makedirs(REPLAY, exist_ok=True)
-        # scratch worktrees of the repo lack the two git-ignored generated files; take /repo's copies
-        for rel in ('src/expr-info.cc', 'nl-writer2/include/mp/nl-opcodes.h'):
-            dst = os.path.join(REPO, rel)
-            src = os.path.join('/repo', rel)
-            if REPO != '/repo' and not os.path.exists(dst) and os.path.exists(src):
-                shutil.copy(src, dst)
+        # scratch worktrees of the repo lack the two git-ignored files its CMake build generates into the
+        # source tree (src/expr-info.cc, nl-writer2/include/mp/nl-opcodes.h).  Do what that build does: compile the
+        # tree's OWN src/gen-expr-info.cc and let it write them (never copy /repo's, which could mask a changed table).
+        self._ensure_generated_tables()
         kf = os.path.join(VERIF, 'known_findings.json')
         self.known = [f for f in json.load(open(kf)).get('findings', [])] if os.path.exists(kf) else []
+
+    def _ensure_generated_tables(self):
+        ei = os.path.join(REPO, 'src', 'expr-info.cc')
+        oh = os.path.join(REPO, 'nl-writer2', 'include', 'mp', 'nl-opcodes.h')
+        if REPO == '/repo' or (os.path.exists(ei) and os.path.exists(oh)):
+            return
+        srcs = [os.path.join(REPO, 'src', f) for f in ('gen-expr-info.cc', 'format.cc', 'posix.cc')]
+        if not all(os.path.exists(x) for x in srcs) or not os.path.isdir(os.path.dirname(oh)):
+            return                      # not an mp tree (or a partial copy): the harness build will say what is missing
+        os.makedirs(os.path.join(BUILD, 'bin'), exist_ok=True)
+        exe = os.path.join(BUILD, 'bin', 'gen_expr_info_boot-%d' % os.getpid())
+        r = subprocess.run(['g++', '-std=c++17', '-O0', '-w', '-I' + os.path.join(REPO, 'include'), '-I' + os.path.join(REPO, 'src')]
+                           + srcs + ['-o', exe], capture_output=True, text=True)
+        if r.returncode == 0:
+            r = subprocess.run([exe, ei, oh], capture_output=True, text=True, timeout=120)
+        try:
+            os.remove(exe)
+        except OSError:
+            pass
+        if r.returncode != 0:
+            print('[%s] cannot generate expr-info.cc / nl-opcodes.h from the tree under test: %s' % (self.pid, (r.stdout + r.stderr)[-400:]), flush=True)
 
     def log(self, *a):
         print('[%s %6.1fs]' % (self.pid, time.time() - self.t0), *a, flush=True)
@@ -162,6 +187,10 @@ run_cmd do
                 for m in FORBIDDEN.finditer(txt):
                     ln = txt.count('\n', 0, m.start()) + 1
                     hits.append('%s:%d: %s' % (os.path.relpath(path, LEAN), ln, m.group(0).strip()))
+                if not PARTIAL_OK.search(path):
+                    for m in PARTIAL.finditer(txt):
+                        ln = txt.count('\n', 0, m.start()) + 1
+                        hits.append('%s:%d: partial def outside a driver' % (os.path.relpath(path, LEAN), ln))
         return hits
 
     def proof_stage(self, module, relfile, prefix, grep_paths, expect_min=1, extra_modules=()):
